@@ -907,6 +907,11 @@ class SArr:
                 if not ok:
                     raise ValueError('could not broadcast input array')
                 vg = v.snapshot()
+                wd, ws = _FLOAT_WIDTH.get(self.dtype), _FLOAT_WIDTH.get(v.dtype)
+                if wd is not None and ws is not None and wd < ws:
+                    # storing into a narrower float array rounds: visible as an uninterpreted CAST_<dtype> of the value
+                    cf, vg0 = _store_cast(self.dtype), vg
+                    vg = (lambda i: (lambda t: cf(t) if z3.is_expr(t) and t.sort() == z3.RealSort() else t)(vg0(i)))
             else:
                 vg = (lambda i: v)
             self._write(_z(a), _z(ln), vg)
@@ -935,6 +940,16 @@ class SArr:
             return SArr(self.n, lambda i: (ag(i), bg(i)), self.dtype)
         ag = self.snapshot()
         return SArr(self.n, lambda i: (ag(i), o), self.dtype)
+
+
+_FLOAT_WIDTH = {'f2': 2, 'f4': 4, 'f8': 8}
+_STORE_CASTS = {}
+
+
+def _store_cast(dt):
+    if dt not in _STORE_CASTS:
+        _STORE_CASTS[dt] = z3.Function('CAST_' + dt, z3.RealSort(), z3.RealSort())
+    return _STORE_CASTS[dt]
 
 
 def slen(a):
